@@ -97,6 +97,16 @@ CHECK_DEADLOCK FALSE
         if jobs[-1]["declared"] and i % 2 == 0:
             # declared total = two blocks and a bit, supplied in block-sized writes that run past it
             jobs[-1].update({"declared_frames": 2 * bs + rnd.randint(1, bs - 1), "frames": 4 * bs, "chunk_frames": rnd.choice([bs, bs // 2 + 1, 3 * bs])})
+    # the largest frames a stream can hold relative to its parameters: incompressible full-scale noise on every channel (all subframes verbatim),
+    # every channel count, byte-multiple and odd depths, the longest frame headers (block size and sample rate both spelled out, two-
+    # and three-byte frame numbers) - whatever a reader assumes about the size of a frame it has no STREAMINFO figure for must hold here
+    for ch in range(1, 9):
+        for bps in ((8, 16, 24, 32) if t == "thorough" else (rnd.choice([8, 16]), rnd.choice([24, 32]))):
+            for bs, nblocks, rate in ((1000, 3, 44101), (17, 135, 44101), (257, 3, 65534), (16, 2100 if t == "thorough" else 140, 12345)):
+                jobs.append({"fe": rnd.choice(["byte-le", "sample", "channel"]), "channels": ch, "bps": bps, "rate": rate,
+                             "frames": bs * nblocks + rnd.choice([0, 3]), "declared": rnd.random() < 0.5, "every_byte": False,
+                             "signal": "noise", "seed": rnd.randint(1, 9999),
+                             "opts": {"block_size": bs, "seektable": rnd.choice(["none", {"frames": 2}]), "max_lpc": rnd.choice([-1, 8]), "padding": -1}})
     parts = [jobs[i::8] for i in range(8)]
 
     def drive(ip):
